@@ -59,6 +59,13 @@ func genCrashCase(t *rapid.T) CrashCase {
 	c.Seq.Ops = genOps(t, m, len(c.Seq.Keys), c.Seq.Cfg, 3, 30, false)
 	ms := genMix(t, kinds, []int{6, 1, 1, 3, 3, 1, 1, 3, 2, 2})
 	c.Suffix = genOps(t, ms, len(c.Seq.Keys), c.Seq.Cfg, 0, 10, false)
+	if weighted(t, "suffixRebits", []int{3, 1}) == 1 {
+		// The recovered store is re-bucketed later on: what the crash left
+		// behind must not leak into the new index.
+		at := rapid.IntRange(0, len(c.Suffix)).Draw(t, "rebitsAt")
+		nb := []int{8, 9, 10, 12, 16}[rapid.IntRange(0, 4).Draw(t, "rebitsTo")]
+		c.Suffix = append(append(append([]Op{}, c.Suffix[:at]...), Op{K: opReBits, A: nb}), c.Suffix[at:]...)
+	}
 	c.Picks = rapid.SliceOfN(rapid.IntRange(0, 1<<20), 6, 6).Draw(t, "picks")
 	c.Order = rapid.IntRange(0, 7).Draw(t, "order")
 	return c
